@@ -145,6 +145,7 @@ type mixedTableCircuit struct {
 	R   frontend.Variable `gnark:",public"`
 	E   []frontend.Variable
 	I   frontend.Variable
+	R2  frontend.Variable // result of the lookup at I + 1 (patterns with shifted entries)
 	pat string
 }
 
@@ -152,12 +153,21 @@ func (c *mixedTableCircuit) Define(api frontend.API) error {
 	t := logderivlookup.New(api)
 	k := 0
 	for _, ch := range c.pat {
-		if ch == 'v' {
+		switch ch {
+		case 'v':
 			t.Insert(c.E[k])
 			k++
-		} else {
+		case 's': // a witness entry shifted by a constant: the committed expression starts with the constant wire
+			t.Insert(api.Add(c.E[k], 3))
+			k++
+		default:
 			t.Insert(7)
 		}
+	}
+	if strings.Contains(c.pat, "s") {
+		api.AssertIsEqual(t.Lookup(api.Sub(api.Add(c.I, 1), 1))[0], c.R)
+		api.AssertIsEqual(t.Lookup(api.Add(c.I, 1))[0], c.R2)
+		return nil
 	}
 	api.AssertIsEqual(t.Lookup(c.I)[0], c.R)
 	return nil
@@ -870,8 +880,9 @@ func runC13(args []string) int {
 	}
 	// ---- lookup tables mixing witness entries and constants: every witness entry must be among the committed wires (the
 	// challenge of the log-derivative argument must depend on the table the prover chose), wherever the constants sit
-	for _, pat := range []string{"vvv", "vvc", "cvv", "vcv", "vcc", "ccv", "vvvvc", "cvcvc"} {
-		mk := func() *mixedTableCircuit { return &mixedTableCircuit{E: make([]frontend.Variable, strings.Count(pat, "v")), pat: pat} }
+	for _, pat := range []string{"vvv", "vvc", "cvv", "vcv", "vcc", "ccv", "vvvvc", "cvcvc", "svs", "ssc", "csv"} {
+		nv := strings.Count(pat, "v") + strings.Count(pat, "s")
+		mk := func() *mixedTableCircuit { return &mixedTableCircuit{E: make([]frontend.Variable, nv), pat: pat} }
 		desc := c13Desc{Kind: "lookup-mixed-table", Detail: "entries (v = witness, c = constant): " + pat}
 		ccs, err := c13Compile("r1cs", mk())
 		rep.Eval("mixed-table|"+pat, true)
@@ -891,7 +902,10 @@ func runC13(args []string) int {
 			}
 		}
 		// wire 0: constant, wire 1: public R, wires 2..: E[k], then I
-		for k := 0; k < strings.Count(pat, "v"); k++ {
+		if strings.Contains(pat, "s") && !committed[2+nv] {
+			rep.Fail("c13:lookup-index-not-committed", "the wire of a lookup index used as I + 1 is not among the committed wires (entries "+pat+")", desc)
+		}
+		for k := 0; k < nv; k++ {
 			if !committed[2+k] {
 				rep.Fail("c13:lookup-table-entry-not-committed", fmt.Sprintf("witness entry E[%d] of a lookup table with entries %s is not among the committed wires: the challenge does not depend on it", k, pat), desc)
 			}
@@ -900,10 +914,25 @@ func runC13(args []string) int {
 		for k := range a.E {
 			a.E[k] = 100 + k
 		}
-		a.I, a.R = 0, 100
-		if pat[0] == 'c' {
-			a.R = 7
+		a.I, a.R, a.R2 = 0, 100, 0
+		val := func(pos int) int { // value of table entry pos
+			k := 0
+			for i, ch := range pat {
+				v := 7
+				if ch == 'v' {
+					v = 100 + k
+					k++
+				} else if ch == 's' {
+					v = 100 + k + 3
+					k++
+				}
+				if i == pos {
+					return v
+				}
+			}
+			return 0
 		}
+		a.R, a.R2 = val(0), val(1)
 		w, _ := frontend.NewWitness(a, bnQ)
 		if obs := SolveCapture(ccs, w, 1); obs.Class != "ok" {
 			rep.Fail("c13:lookup-rejects-valid:mixed-table", obs.Class+" "+obs.Msg, desc)
